@@ -604,11 +604,6 @@ Proof.
   apply (cw_spec (pairwise votes) (pairwise_nodup votes) (pairwise_nonneg votes Hwf) (pairwise_cands_two votes c Hwf Hc)). exact Hcw.
 Qed.
 
-Theorem cw_benham fx votes c : wf_votes votes = true -> is_cw (pairwise votes) c -> benham fx votes = H_ok [Cand c].
-Proof.
-  intros Hwf Hcw. unfold benham. cbn [benham_loop]. rewrite (pairwise_cw_winner votes c Hwf Hcw). reflexivity.
-Qed.
-
 Lemma firstn_in {X} (l : list X) : forall n x, In x (firstn n l) -> In x l.
 Proof. induction l as [|y l IH]; intros [|n] x H; cbn [firstn] in H; try destruct H as [<-|H]; try (left; reflexivity); try destruct H. right. exact (IH n x H). Qed.
 Lemma firstn_nodup {X} (l : list X) : forall n, NoDup l -> NoDup (firstn n l).
@@ -634,9 +629,9 @@ Proof.
     inversion Hnd as [|? ? Hn _]; subst. exfalso. apply Hn. left. reflexivity.
 Qed.
 
-Lemma tideman_tier_unfold fx f round : round <> [] ->
-  tideman_tier fx (S f) round =
-  match smith_schwartz (pairwise round) true with
+Lemma tideman_tier_unfold fx sc f round : round <> [] ->
+  tideman_tier fx sc (S f) round =
+  match winner_set sc round with
   | [w] => inl (Cand w)
   | sset =>
       let round1 := subset_votes sset round in
@@ -646,11 +641,23 @@ Lemma tideman_tier_unfold fx f round : round <> [] ->
           if fx && has_tie rem then inr H_nie
           else match rem with
                | [r] => inl r
-               | _ => tideman_tier fx f (subset_votes (plain rem) round1)
+               | _ => tideman_tier fx sc f (subset_votes (plain rem) round1)
                end
       end
   end.
 Proof. destruct round; [congruence|reflexivity]. Qed.
+
+(* with a pairwise contest the winner set is the Smith set, whether or not the fallback is there *)
+Lemma winner_set_smith sc round : smith_schwartz (pairwise round) true <> [] ->
+  winner_set sc round = smith_schwartz (pairwise round) true.
+Proof. unfold winner_set. destruct (smith_schwartz (pairwise round) true); [congruence|reflexivity]. Qed.
+
+Lemma smith_nonempty votes : wf_votes votes = true -> pairwise votes <> [] -> smith_schwartz (pairwise votes) true <> [].
+Proof. intros Hwf Hne. exact (proj1 (smith_dominating (pairwise votes) (pairwise_two votes Hwf Hne))). Qed.
+
+Lemma winner_set_contest sc round : wf_votes round = true -> pairwise round <> [] ->
+  winner_set sc round = smith_schwartz (pairwise round) true.
+Proof. intros Hwf Hne. apply winner_set_smith, smith_nonempty; assumption. Qed.
 
 Lemma qv_in votes r w : In (r, w) votes -> In (r, inject_Z w) (qv votes).
 Proof. intros H. unfold qv. apply in_map_iff. exists (r, w). auto. Qed.
@@ -659,16 +666,6 @@ Lemma cands_all_ranked votes x : In x (cands_of votes) -> In x (all_ranked_candi
 Proof.
   intros H. apply cands_of_spec in H. destruct H as (r & w & Hr & Hx). unfold flatten in Hx. apply in_flat_map in Hx.
   destruct Hx as (it & Hit & Hx). exact (all_ranked_in (qv votes) r (inject_Z w) it x (qv_in votes r w Hr) Hit Hx).
-Qed.
-
-Theorem cw_tideman fx votes c : wf_votes votes = true -> is_cw (pairwise votes) c -> tideman_alt fx votes 1 = H_ok [Cand c].
-Proof.
-  intros Hwf Hcw. pose proof Hcw as [Hc _]. unfold tideman_alt.
-  assert (Hne : votes <> []) by (intros ->; exact Hc).
-  rewrite (tideman_tier_unfold fx _ votes Hne), (smith_cw votes c Hwf Hcw).
-  assert (Hm : cmem c (all_ranked_candidates (qv votes)) = true).
-  { apply cmem_iff, cands_all_ranked, candidates_pairwise_in, Hc. }
-  rewrite Hm. reflexivity.
 Qed.
 
 (* ------------------------------------------------------------------ all_ranked_candidates *)
@@ -725,6 +722,35 @@ Proof.
   split; [|apply cands_all_ranked]. intros H. apply (proj2 (arc_good_all (qv votes))) in H.
   destruct H as (b & w & it & Hb & Hit & Hx). apply cands_of_spec. unfold qv in Hb. apply in_map_iff in Hb.
   destruct Hb as ([b' w'] & [= <- _] & Hb). exists b', w'. split; [exact Hb|]. unfold flatten. apply in_flat_map. exists it. auto.
+Qed.
+
+(* a pairwise contest needs two candidates on the ballots *)
+Lemma arc_two votes : wf_votes votes = true -> pairwise votes <> [] -> (2 <= length (all_ranked_candidates (qv votes)))%nat.
+Proof.
+  intros Hwf Hne. etransitivity; [exact (pairwise_two votes Hwf Hne)|].
+  apply NoDup_incl_length; [apply candidates_NoDup|]. intros x Hx. apply arc_iff, candidates_pairwise_in, Hx.
+Qed.
+
+(* Benham.get_condorcet_winner with two or more candidates on the ballots: CondorcetWinner's answer, repaired or not *)
+Lemma benham_cw_two sc cur : (2 <= length (all_ranked_candidates (qv cur)))%nat -> benham_cw sc cur = condorcet_winner (pairwise cur).
+Proof. unfold benham_cw. destruct (all_ranked_candidates (qv cur)) as [|x [|y t]]; cbn [length]; intros H; try lia; reflexivity. Qed.
+
+Theorem cw_benham fx sc votes c : wf_votes votes = true -> is_cw (pairwise votes) c -> benham fx sc votes = H_ok [Cand c].
+Proof.
+  intros Hwf Hcw. pose proof Hcw as [Hc _].
+  assert (Hne : pairwise votes <> []) by (intros E; rewrite E in Hc; exact Hc).
+  unfold benham. cbn [benham_loop]. rewrite (benham_cw_two sc votes (arc_two votes Hwf Hne)), (pairwise_cw_winner votes c Hwf Hcw). reflexivity.
+Qed.
+
+Theorem cw_tideman fx sc tr votes c : wf_votes votes = true -> is_cw (pairwise votes) c -> tideman_alt fx sc tr votes 1 = H_ok [Cand c].
+Proof.
+  intros Hwf Hcw. pose proof Hcw as [Hc _]. unfold tideman_alt. cbn [tideman_loop]. unfold tier_fuel_of.
+  assert (Hne : votes <> []) by (intros ->; exact Hc).
+  assert (Hne2 : pairwise votes <> []) by (intros E; rewrite E in Hc; exact Hc).
+  rewrite (tideman_tier_unfold fx sc _ votes Hne), (winner_set_contest sc votes Hwf Hne2), (smith_cw votes c Hwf Hcw).
+  assert (Hm : cmem c (all_ranked_candidates (qv votes)) = true).
+  { apply cmem_iff, cands_all_ranked, candidates_pairwise_in, Hc. }
+  rewrite Hm. reflexivity.
 Qed.
 
 (* ------------------------------------------------------------------ eliminate_one *)
@@ -801,17 +827,28 @@ Proof.
   unfold smith_schwartz. rewrite Hc. cbn. intros [].
 Qed.
 
-Lemma tier_step_in fx T f round w : wf_votes round = true ->
-  tideman_tier fx (S f) round = inl (Cand w) ->
-  (forall x, In x (smith_schwartz (pairwise round) true) -> In x T) ->
+Lemma smith_empty : smith_schwartz [] true = [].
+Proof. reflexivity. Qed.
+
+(* the winner set of a round consists of candidates of the round *)
+Lemma winner_set_cands sc round x : In x (winner_set sc round) -> In x (cands_of round).
+Proof.
+  unfold winner_set. destruct (smith_schwartz (pairwise round) true) as [|s t] eqn:E.
+  - destruct sc; [apply arc_iff|intros []].
+  - intros H. apply candidates_pairwise_in, smith_in_cands. rewrite E. exact H.
+Qed.
+
+Lemma tier_step_in fx sc T f round w : wf_votes round = true ->
+  tideman_tier fx sc (S f) round = inl (Cand w) ->
+  (forall x, In x (winner_set sc round) -> In x T) ->
   (forall round', wf_votes round' = true -> (forall x, In x (cands_of round') -> In x T) ->
-                  tideman_tier fx f round' = inl (Cand w) -> In w T) ->
+                  tideman_tier fx sc f round' = inl (Cand w) -> In w T) ->
   In w T.
 Proof.
   intros Hwf H HS IH.
   assert (Hne : round <> []) by (intros ->; discriminate H).
-  rewrite (tideman_tier_unfold fx f round Hne) in H.
-  set (sset := smith_schwartz (pairwise round) true) in *.
+  rewrite (tideman_tier_unfold fx sc f round Hne) in H.
+  set (sset := winner_set sc round) in *.
   assert (Hcase : (exists s, sset = [s]) \/ (forall s, sset <> [s])).
   { destruct sset as [|s [|s2 ss]]; [right; intros s; discriminate|left; exists s; reflexivity|right; intros s0; discriminate]. }
   destruct Hcase as [(s & Es)|Hn].
@@ -820,7 +857,7 @@ Proof.
     assert (H' : match eliminate_one round1 with
                  | None => inr H_index
                  | Some rem => if fx && has_tie rem then inr H_nie
-                               else match rem with [r] => inl r | _ => tideman_tier fx f (subset_votes (plain rem) round1) end
+                               else match rem with [r] => inl r | _ => tideman_tier fx sc f (subset_votes (plain rem) round1) end
                  end = @inl (res C) hres (Cand w)).
     { destruct sset as [|s [|s2 ss]]; [exact H|exfalso; apply (Hn s); reflexivity|exact H]. }
     clear H. pose proof (subset_wf sset round Hwf) as Hwf1. fold round1 in Hwf1.
@@ -835,17 +872,26 @@ Proof.
     + refine (IH _ (subset_wf _ _ Hwf1) _ H'). intros x Hx. apply subset_cands in Hx. apply HT1, Hx.
 Qed.
 
-Lemma tier_in fx T : forall fuel round w, wf_votes round = true -> (forall x, In x (cands_of round) -> In x T) ->
-  tideman_tier fx fuel round = inl (Cand w) -> In w T.
+Lemma tier_in fx sc T : forall fuel round w, wf_votes round = true -> (forall x, In x (cands_of round) -> In x T) ->
+  tideman_tier fx sc fuel round = inl (Cand w) -> In w T.
 Proof.
   induction fuel as [|f IH]; intros round w Hwf HT H.
   - destruct round; discriminate H.
-  - apply (tier_step_in fx T f round w Hwf H).
-    + intros x Hx. apply HT. apply candidates_pairwise_in. apply smith_in_cands. exact Hx.
+  - apply (tier_step_in fx sc T f round w Hwf H).
+    + intros x Hx. apply HT. apply (winner_set_cands sc round x Hx).
     + intros round' Hwf' HT' H'. exact (IH round' w Hwf' HT' H').
 Qed.
 
-Lemma tier_not_ok fx : forall fuel round r, tideman_tier fx fuel round <> inr (H_ok r).
+(* the winner of a tier belongs to the winner set of the tier's first round *)
+Lemma tier_in_winner_set fx sc fuel round w : wf_votes round = true ->
+  tideman_tier fx sc fuel round = inl (Cand w) -> In w (winner_set sc round).
+Proof.
+  intros Hwf H. destruct fuel as [|f]; [destruct round; discriminate H|].
+  apply (tier_step_in fx sc _ f round w Hwf H); [auto|].
+  intros round' Hwf' HT' H'. exact (tier_in fx sc _ f round' w Hwf' HT' H').
+Qed.
+
+Lemma tier_not_ok fx sc : forall fuel round r, tideman_tier fx sc fuel round <> inr (H_ok r).
 Proof.
   induction fuel as [|f IH]; intros round r; [destruct round; discriminate|].
   destruct round as [|bw t]; [discriminate|]. rewrite tideman_tier_unfold by discriminate.
@@ -853,25 +899,62 @@ Proof.
   assert (Hgen : forall sset, match eliminate_one (subset_votes sset round) with
                  | None => inr H_index
                  | Some rem => if fx && has_tie rem then inr H_nie
-                               else match rem with [r0] => inl r0 | _ => tideman_tier fx f (subset_votes (plain rem) (subset_votes sset round)) end
+                               else match rem with [r0] => inl r0 | _ => tideman_tier fx sc f (subset_votes (plain rem) (subset_votes sset round)) end
                  end <> inr (H_ok r)).
   { intros sset. destruct (eliminate_one (subset_votes sset round)) as [rem|]; [|discriminate].
     destruct (fx && has_tie rem); [discriminate|]. destruct rem as [|r0 [|r1 rr]]; [apply IH|discriminate|apply IH]. }
-  destruct (smith_schwartz (pairwise round) true) as [|s [|s2 ss]]; [apply Hgen|discriminate|apply Hgen].
+  destruct (winner_set sc round) as [|s [|s2 ss]]; [apply Hgen|discriminate|apply Hgen].
 Qed.
 
-Theorem smith_tideman fx votes n c : wf_votes votes = true -> tideman_alt fx votes n = H_ok [Cand c] ->
-  In c (smith_schwartz (pairwise votes) true).
+(* ------------------------------------------------------------------ the tier loop of TidemanAlternative.evaluate *)
+Lemma tideman_loop_S fx sc tr k tv elig n acc : tideman_loop fx sc tr (S k) tv elig n acc =
+  match tideman_tier fx sc (tier_fuel_of tv) tv with
+  | inr e => e
+  | inl (TieR _) => H_key
+  | inl (Cand w) =>
+      if cmem w elig then
+        if Nat.eqb (length (acc ++ [Cand w])) n || (match filter (fun c => negb (ceqb c w)) elig with [] => true | _ => false end)
+        then H_ok (acc ++ [Cand w])
+        else if tr then tideman_loop fx sc tr k (subset_votes (filter (fun c => negb (ceqb c w)) elig) tv)
+                                      (filter (fun c => negb (ceqb c w)) elig) n (acc ++ [Cand w])
+        else H_type
+      else H_key
+  end.
+Proof. reflexivity. Qed.
+
+(* an answer extends the winners already listed *)
+Lemma tideman_loop_prefix fx sc tr n : forall k tv elig acc r,
+  tideman_loop fx sc tr k tv elig n acc = H_ok r -> exists r', r = acc ++ r'.
 Proof.
-  intros Hwf H. unfold tideman_alt in H.
-  destruct (tideman_tier fx (S (S (length (all_ranked_candidates (qv votes))))) votes) as [[w|l]|e] eqn:Et.
-  - assert (E : w = c).
-    { destruct (cmem w (all_ranked_candidates (qv votes))); [|discriminate].
-      destruct (Nat.eqb 1 n || forallb (fun c0 => ceqb c0 w) (all_ranked_candidates (qv votes))); [|discriminate]. congruence. }
-    subst w. apply (tier_step_in fx _ _ votes c Hwf Et); [auto|].
-    intros round' Hwf' HT' H'. exact (tier_in fx _ _ round' c Hwf' HT' H').
+  induction k as [|k IH]; intros tv elig acc r H; [discriminate H|]. rewrite tideman_loop_S in H.
+  destruct (tideman_tier fx sc (tier_fuel_of tv) tv) as [[w|l]|e] eqn:Et.
+  - destruct (cmem w elig); [|discriminate].
+    destruct (Nat.eqb _ n || _).
+    + injection H as <-. exists [Cand w]. reflexivity.
+    + destruct tr; [|discriminate]. destruct (IH _ _ _ _ H) as (r' & ->). exists (Cand w :: r'). rewrite <- app_assoc. reflexivity.
   - discriminate.
-  - subst e. destruct (tier_not_ok fx _ _ _ Et).
+  - subst e. destruct (tier_not_ok fx sc _ _ _ Et).
+Qed.
+
+(* the first entry of an answer is the winner of the first tier *)
+Lemma tideman_first fx sc tr votes n r : tideman_alt fx sc tr votes n = H_ok r ->
+  exists w rest, r = Cand w :: rest /\ tideman_tier fx sc (tier_fuel_of votes) votes = inl (Cand w).
+Proof.
+  unfold tideman_alt. rewrite tideman_loop_S. intros H.
+  destruct (tideman_tier fx sc (tier_fuel_of votes) votes) as [[w|l]|e] eqn:Et.
+  - destruct (cmem w _); [|discriminate]. destruct (Nat.eqb _ n || _).
+    + injection H as <-. exists w, []. split; reflexivity.
+    + destruct tr; [|discriminate]. destruct (tideman_loop_prefix _ _ _ _ _ _ _ _ _ H) as (r' & ->). exists w, r'. split; reflexivity.
+  - discriminate.
+  - subst e. destruct (tier_not_ok fx sc _ _ _ Et).
+Qed.
+
+(* whatever repairs the code has and however many seats are asked for: the first winner lies in the Smith set of the profile *)
+Theorem smith_tideman fx sc tr votes n c rest : wf_votes votes = true -> pairwise votes <> [] ->
+  tideman_alt fx sc tr votes n = H_ok (Cand c :: rest) -> In c (smith_schwartz (pairwise votes) true).
+Proof.
+  intros Hwf Hne H. destruct (tideman_first fx sc tr votes n _ H) as (w & rest' & E & Et). injection E as <- _.
+  rewrite <- (winner_set_contest sc votes Hwf Hne). exact (tier_in_winner_set fx sc _ votes c Hwf Et).
 Qed.
 
 (* ------------------------------------------------------------------ Benham (with the elimination tie refused) is Smith-efficient *)
@@ -889,21 +972,21 @@ Proof.
   destruct H2 as [H2|(c' & H2)]; [congruence|]. apply H1. rewrite H2 in E. injection E as <- _. exact H2.
 Qed.
 
-Lemma benham_loop_S fx f v0 cur : benham_loop fx (S f) v0 cur =
-  match condorcet_winner (pairwise cur) with
+Lemma benham_loop_S fx sc f v0 cur : benham_loop fx sc (S f) v0 cur =
+  match benham_cw sc cur with
   | c :: _ => H_ok [Cand c]
   | [] => match eliminate_one cur with
           | None => H_index
           | Some remains =>
               match remains with
               | [_] => H_ok remains
-              | _ => if fx && has_tie remains then H_nie else benham_loop fx f v0 (subset_votes (plain remains) v0)
+              | _ => if fx && has_tie remains then H_nie else benham_loop fx sc f v0 (subset_votes (plain remains) v0)
               end
           end
   end.
 Proof. reflexivity. Qed.
-Lemma benham_loop_0 fx v0 cur : benham_loop fx 0 v0 cur =
-  match condorcet_winner (pairwise cur) with c :: _ => H_ok [Cand c] | [] => H_fuel end.
+Lemma benham_loop_0 fx sc v0 cur : benham_loop fx sc 0 v0 cur =
+  match benham_cw sc cur with c :: _ => H_ok [Cand c] | [] => H_fuel end.
 Proof. reflexivity. Qed.
 
 Section BENHAM.
@@ -1005,15 +1088,17 @@ Section BENHAM.
       intros ->. inversion Hn as [|? ? Hx _]; subst. apply Hx. left. reflexivity.
   Qed.
 
-  Lemma benham_smith_loop : forall fuel cur c, binv cur -> benham_loop true fuel votes cur = H_ok [Cand c] -> In c Sm.
+  Lemma binv_two cur : binv cur -> (2 <= length (K cur))%nat.
+  Proof. intros (_ & _ & _ & _ & (x0 & y0 & Hx0 & Hy0 & Hxy)). exact (two_in_length _ x0 y0 Hx0 Hy0 Hxy). Qed.
+
+  Lemma benham_smith_loop sc : forall fuel cur c, binv cur -> benham_loop true sc fuel votes cur = H_ok [Cand c] -> In c Sm.
   Proof.
-    induction fuel as [|f IH]; intros cur c Hb H; pose proof Hb as (Hwfc & _ & _ & _ & (x0 & y0 & Hx0 & Hy0 & Hxy)).
-    - rewrite benham_loop_0 in H. destruct (condorcet_winner (pairwise cur)) as [|c0 l] eqn:Ec; [discriminate|].
+    induction fuel as [|f IH]; intros cur c Hb H; pose proof Hb as (Hwfc & _ & _ & _ & _); pose proof (binv_two cur Hb) as HlenK.
+    - rewrite benham_loop_0, (benham_cw_two sc cur HlenK) in H. destruct (condorcet_winner (pairwise cur)) as [|c0 l] eqn:Ec; [discriminate|].
       injection H as <-. exact (cw_in_smith cur c0 Hb (cw_head cur c0 l Hwfc Ec)).
-    - rewrite benham_loop_S in H. destruct (condorcet_winner (pairwise cur)) as [|c0 l] eqn:Ec.
+    - rewrite benham_loop_S, (benham_cw_two sc cur HlenK) in H. destruct (condorcet_winner (pairwise cur)) as [|c0 l] eqn:Ec.
       2:{ injection H as <-. exact (cw_in_smith cur c0 Hb (cw_head cur c0 l Hwfc Ec)). }
       destruct (eliminate_one cur) as [rem|] eqn:Ee; [|discriminate].
-      assert (HlenK : (2 <= length (K cur))%nat) by (apply (two_in_length _ x0 y0 Hx0 Hy0 Hxy)).
       destruct rem as [|r [|r2 rr]].
       + destruct (elim_spec cur [] Hwfc Ee eq_refl) as (R & E1 & _ & _ & E4). destruct R; [|discriminate]. cbn [length] in E4. fold (K cur) in E4. lia.
       + injection H as ->. destruct (elim_spec cur [Cand c] Hwfc Ee eq_refl) as (R & E1 & E2 & E3 & E4).
@@ -1026,13 +1111,13 @@ Section BENHAM.
         apply (IH _ c (binv_next cur R Hb E2 E3 (survive cur R Hb Ec E2 E3 E4) H2) H).
   Qed.
 
-  Theorem smith_benham_sec c : benham true votes = H_ok [Cand c] -> In c Sm.
-  Proof. intros H. exact (benham_smith_loop _ votes c binv_start H). Qed.
+  Theorem smith_benham_sec sc c : benham true sc votes = H_ok [Cand c] -> In c Sm.
+  Proof. intros H. exact (benham_smith_loop sc _ votes c binv_start H). Qed.
 End BENHAM.
 
-Theorem smith_benham votes c : wf_votes votes = true -> pairwise votes <> [] ->
-  benham true votes = H_ok [Cand c] -> In c (smith_schwartz (pairwise votes) true).
-Proof. intros Hwf Hne. exact (smith_benham_sec votes Hwf Hne c). Qed.
+Theorem smith_benham sc votes c : wf_votes votes = true -> pairwise votes <> [] ->
+  benham true sc votes = H_ok [Cand c] -> In c (smith_schwartz (pairwise votes) true).
+Proof. intros Hwf Hne. exact (smith_benham_sec votes Hwf Hne sc c). Qed.
 
 (* ------------------------------------------------------------------ the fuel of the elimination loops suffices *)
 Lemma gnb_length (tot : list (C * Q)) n : (1 <= n)%nat -> (n < length tot)%nat -> length (get_n_best Qle_bool tot n) = n.
@@ -1065,24 +1150,24 @@ Proof.
   intros H. apply NoDup_incl_length; [apply arc_nodup|]. intros x Hx. apply arc_iff, subset_cands in Hx. apply H; tauto.
 Qed.
 
-Lemma benham_loop_fuel fx votes0 : wf_votes votes0 = true -> forall fuel cur, wf_votes cur = true ->
-  (length (all_ranked_candidates (qv cur)) < fuel)%nat -> benham_loop fx fuel votes0 cur <> H_fuel.
+Lemma benham_loop_fuel fx sc votes0 : wf_votes votes0 = true -> forall fuel cur, wf_votes cur = true ->
+  (length (all_ranked_candidates (qv cur)) < fuel)%nat -> benham_loop fx sc fuel votes0 cur <> H_fuel.
 Proof.
   intros Hwf0. induction fuel as [|f IH]; intros cur Hwf Hlt; [lia|].
-  rewrite benham_loop_S. destruct (condorcet_winner (pairwise cur)); [|discriminate].
+  rewrite benham_loop_S. destruct (benham_cw sc cur); [|discriminate].
   destruct (eliminate_one cur) as [rem|] eqn:Ee; [|discriminate].
   pose proof (elim_length cur rem Hwf Ee) as Hl.
-  assert (Hnext : benham_loop fx f votes0 (subset_votes (plain rem) votes0) <> H_fuel).
+  assert (Hnext : benham_loop fx sc f votes0 (subset_votes (plain rem) votes0) <> H_fuel).
   { apply IH; [apply subset_wf, Hwf0|].
     pose proof (arc_subset_le (plain rem) votes0 (plain rem) (fun x H _ => H)). lia. }
   destruct rem as [|r [|r2 rr]]; [|discriminate|]; (destruct (fx && has_tie _); [discriminate|exact Hnext]).
 Qed.
 
-Theorem benham_fuel fx votes : wf_votes votes = true -> benham fx votes <> H_fuel.
+Theorem benham_fuel fx sc votes : wf_votes votes = true -> benham fx sc votes <> H_fuel.
 Proof. intros Hwf. unfold benham. apply benham_loop_fuel; [exact Hwf|exact Hwf|lia]. Qed.
 
-Lemma tier_fuel fx : forall fuel round, wf_votes round = true ->
-  (length (all_ranked_candidates (qv round)) < fuel)%nat -> tideman_tier fx fuel round <> inr H_fuel.
+Lemma tier_fuel fx sc : forall fuel round, wf_votes round = true ->
+  (length (all_ranked_candidates (qv round)) < fuel)%nat -> tideman_tier fx sc fuel round <> inr H_fuel.
 Proof.
   induction fuel as [|f IH]; intros round Hwf Hlt; [lia|].
   destruct round as [|bw t]; [discriminate|]. set (round := bw :: t) in *.
@@ -1090,25 +1175,44 @@ Proof.
   assert (Hgen : forall sset, match eliminate_one (subset_votes sset round) with
                  | None => inr H_index
                  | Some rem => if fx && has_tie rem then inr H_nie
-                               else match rem with [r0] => inl r0 | _ => tideman_tier fx f (subset_votes (plain rem) (subset_votes sset round)) end
+                               else match rem with [r0] => inl r0 | _ => tideman_tier fx sc f (subset_votes (plain rem) (subset_votes sset round)) end
                  end <> @inr (res C) hres H_fuel).
   { intros sset. set (round1 := subset_votes sset round). pose proof (subset_wf sset round Hwf) as Hwf1. fold round1 in Hwf1.
     destruct (eliminate_one round1) as [rem|] eqn:Ee; [|discriminate].
     pose proof (elim_length round1 rem Hwf1 Ee) as Hl.
     assert (Hle1 : (length (all_ranked_candidates (qv round1)) <= length (all_ranked_candidates (qv round)))%nat).
     { apply arc_subset_le. intros x _ Hx. apply arc_iff, Hx. }
-    assert (Hnext : tideman_tier fx f (subset_votes (plain rem) round1) <> inr H_fuel).
+    assert (Hnext : tideman_tier fx sc f (subset_votes (plain rem) round1) <> inr H_fuel).
     { apply IH; [apply subset_wf, Hwf1|]. pose proof (arc_subset_le (plain rem) round1 (plain rem) (fun x H _ => H)). lia. }
     destruct (fx && has_tie rem); [discriminate|]. destruct rem as [|r0 [|r1 rr]]; [exact Hnext|discriminate|exact Hnext]. }
-  rewrite (tideman_tier_unfold fx f round Hne).
-  destruct (smith_schwartz (pairwise round) true) as [|s [|s2 ss]]; [apply Hgen|discriminate|apply Hgen].
+  rewrite (tideman_tier_unfold fx sc f round Hne).
+  destruct (winner_set sc round) as [|s [|s2 ss]]; [apply Hgen|discriminate|apply Hgen].
 Qed.
 
-Theorem tideman_fuel fx votes n : wf_votes votes = true -> tideman_alt fx votes n <> H_fuel.
+Lemma tier_fuel_of_ok fx sc round : wf_votes round = true -> tideman_tier fx sc (tier_fuel_of round) round <> inr H_fuel.
+Proof. intros Hwf. apply tier_fuel; [exact Hwf|unfold tier_fuel_of; lia]. Qed.
+
+(* removing an eligible candidate shortens the eligible list *)
+Lemma filter_le {X} (f : X -> bool) (l : list X) : (length (filter f l) <= length l)%nat.
+Proof. induction l as [|x l IH]; cbn [filter length]; [lia|]. destruct (f x); cbn [length]; lia. Qed.
+
+Lemma remove_length (w : C) (l : list C) : In w l -> (length (filter (fun c => negb (ceqb c w)) l) < length l)%nat.
 Proof.
-  intros Hwf. unfold tideman_alt.
-  destruct (tideman_tier fx (S (S (length (all_ranked_candidates (qv votes))))) votes) as [[w|l]|e] eqn:Et.
-  - destruct (cmem w _); [destruct (_ || _)|]; discriminate.
-  - discriminate.
-  - intros ->. apply (tier_fuel fx _ votes Hwf) in Et; [exact Et|lia].
+  induction l as [|x l IH]; intros H; [destruct H|]. cbn [filter length]. destruct (ceqb x w) eqn:E; cbn [negb].
+  - pose proof (filter_le (fun c => negb (ceqb c w)) l). lia.
+  - destruct H as [->|H]; [rewrite ceqb_refl in E; discriminate|]. cbn [length]. specialize (IH H). lia.
 Qed.
+
+Lemma tideman_loop_fuel fx sc tr n : forall k tv elig acc, wf_votes tv = true -> (length elig < k)%nat ->
+  tideman_loop fx sc tr k tv elig n acc <> H_fuel.
+Proof.
+  induction k as [|k IH]; intros tv elig acc Hwf Hlt; [lia|]. rewrite tideman_loop_S.
+  destruct (tideman_tier fx sc (tier_fuel_of tv) tv) as [[w|l]|e] eqn:Et.
+  - destruct (cmem w elig) eqn:Em; [|discriminate]. destruct (Nat.eqb _ n || _); [discriminate|]. destruct tr; [|discriminate].
+    apply IH; [apply subset_wf, Hwf|]. apply cmem_iff in Em. pose proof (remove_length w elig Em). lia.
+  - discriminate.
+  - intros ->. exact (tier_fuel_of_ok fx sc tv Hwf Et).
+Qed.
+
+Theorem tideman_fuel fx sc tr votes n : wf_votes votes = true -> tideman_alt fx sc tr votes n <> H_fuel.
+Proof. intros Hwf. unfold tideman_alt. apply tideman_loop_fuel; [exact Hwf|lia]. Qed.
